@@ -156,6 +156,22 @@ def _ops():
             return "sphere:%s:%s:%g" % (which, pname, cutoff), v, ch
         return op
 
+    def sph_monoflag(L):
+        # mono=True must ignore the dispersity settings without touching the caller's dictionary
+        which = "q%d" % L.qsel
+        k = L.kernel("sphere", which)
+        v, ch = _guarded(lambda p: call_kernel(k, p, mono=True), dict(P["disp"]))
+        return "sphere:%s:disp-as-mono" % which, v, ch
+
+    def cyl_mesh(L):
+        # 40 x 40 mesh (16 kernel invocations) with 6-sigma tails and a cutoff: the whole first invocation (and the
+        # last) lies below the cutoff, so the accumulators are carried through blocks that add nothing
+        k = L.kernel("cylinder", "q1")
+        pars = {"radius": 20.0, "length": 300.0, "radius_pd": 0.1, "radius_pd_n": 40, "radius_pd_nsigma": 6.0,
+                "length_pd": 0.1, "length_pd_n": 40, "length_pd_nsigma": 6.0}
+        v, ch = _guarded(lambda p: call_kernel(k, p, cutoff=1e-5), pars)
+        return "cylinder:q1:mesh1600:1e-5", v, ch
+
     def sph2d(pname):
         def op(L):
             k = L.kernel("sphere", "2d")
@@ -281,7 +297,7 @@ def _ops():
     ops = [
         ("mk_q1", mk("q1")), ("mk_q2", mk("q2")),
         ("sph_mono", sph("mono")), ("sph_disp", sph("disp")), ("sph_big", sph("big")),
-        ("sph_zero", sph("zero")), ("sph_cut", sph("disp", 0.02)),
+        ("sph_zero", sph("zero")), ("sph_cut", sph("disp", 0.02)), ("sph_monoflag", sph_monoflag), ("cyl_mesh", cyl_mesh),
         ("sph2d_mono", sph2d("mono")), ("sph2d_mag", sph2d("mag")),
         ("sph_fq", fq),
         ("cyl_disp", generic("cylinder", "q1", "cyl")), ("cyl_fq", generic("cylinder", "q1", "cyl2", True)),
@@ -298,7 +314,7 @@ def _ops():
     return ops
 
 
-QUICK_OPS = ["mk_q2", "sph_mono", "sph_disp", "sph_zero", "sph2d_mag", "sph2d_mono", "sph_fq", "cyl_disp", "py_1", "py_2",
+QUICK_OPS = ["mk_q2", "sph_monoflag", "sph_disp", "sph_zero", "sph2d_mag", "sph2d_mono", "sph_fq", "cyl_mesh", "py_1", "py_2",
              "prod", "mix", "direct", "sv_set", "sv_eval", "sv_clone_mut", "svps", "release", "reload"]
 
 
